@@ -185,6 +185,40 @@ func c19Snap(nd *vNode) *c19Truth {
 	return tr
 }
 
+// ---- independent record of what the outbound queues accepted and refused (hook in rpcQueue.push, build tag verif)
+
+type c19PushRec struct {
+	ok     bool
+	urgent bool
+	rpc    *RPC
+}
+
+type c19PushLog struct {
+	mu   sync.Mutex
+	recs []c19PushRec
+}
+
+// c19StartPushLog installs the hook (one node per process at a time: every push belongs to it).
+func c19StartPushLog() *c19PushLog {
+	l := &c19PushLog{}
+	f := func(q *rpcQueue, rpc *RPC, urgent bool, err error) {
+		cp := vCloneRPC(rpc)
+		l.mu.Lock()
+		l.recs = append(l.recs, c19PushRec{err == nil, urgent, cp})
+		l.mu.Unlock()
+	}
+	verifPushedHook.Store(&f)
+	return l
+}
+
+func (l *c19PushLog) Stop() { verifPushedHook.Store(nil) }
+
+func (l *c19PushLog) Recs() []c19PushRec {
+	l.mu.Lock()
+	defer l.mu.Unlock()
+	return append([]c19PushRec(nil), l.recs...)
+}
+
 // ---- canonical RPC meta signatures (harness's own rendering)
 
 func c19IDs(ids []string) string { return strings.Join(ids, ",") }
@@ -376,13 +410,16 @@ type c19Acct struct {
 	drops     int
 	liveSends int
 	hello     int
+	pushes    int
+	urgent    int
+	urgentRef int
 }
 
 // c19Wires settles SEND_RPC / DROP_RPC against the raw tracer (one to one, metas
 // rendered independently) and against what the puppets read off their wires:
 // every frame has a SEND_RPC event, and every SEND_RPC to a peer whose stream
 // was not closed afterwards did arrive. Call it when all queues have drained.
-func c19Wires(n *vNet, nd *vNode, pups []*vPuppet, evs []*pb.TraceEvent) (*c19Acct, map[string]string, string) {
+func c19Wires(n *vNet, nd *vNode, pups []*vPuppet, evs []*pb.TraceEvent, pushes *c19PushLog) (*c19Acct, map[string]string, string) {
 	// message IDs as the node is configured to compute them (the function is an option, not part of what is judged)
 	idf := nd.ps.idGen.RawID
 	a := &c19Acct{wireMsgs: map[peer.ID]map[string]bool{}, dropIDs: map[peer.ID]map[string]bool{}, forwarded: map[string]string{}}
@@ -410,6 +447,36 @@ func c19Wires(n *vNet, nd *vNode, pups []*vPuppet, evs []*pb.TraceEvent) (*c19Ac
 	for _, e := range nd.tr.Events() {
 		if e.Kind == "send" || e.Kind == "drop" {
 			fromRaw = append(fromRaw, c19SD{e.Kind, e.Peer, c19SigRPC(&e.RPC.RPC, idf), nil, 0})
+		}
+	}
+	// every push the queues saw, in order, against the SEND_RPC / DROP_RPC events, in order (pushes are made by the event
+	// loop, each followed at once by its event)
+	if pushes != nil {
+		recs := pushes.Recs()
+		a.pushes = len(recs)
+		for _, r := range recs {
+			if r.urgent {
+				a.urgent++
+				if !r.ok {
+					a.urgentRef++
+				}
+			}
+		}
+		for i := 0; i < len(recs) || i < len(a.fromEv); i++ {
+			kind := map[bool]string{true: "send", false: "drop"}
+			switch {
+			case i >= len(a.fromEv):
+				return a, map[string]string{"check": "queue_push_without_event", "outcome": kind[recs[i].ok], "urgent": fmt.Sprint(recs[i].urgent)},
+					fmt.Sprintf("push %d (%s, urgent=%v) of %s has no SEND_RPC / DROP_RPC event (%d pushes, %d events)", i, kind[recs[i].ok], recs[i].urgent, c19SigRPC(&recs[i].rpc.RPC, idf), len(recs), len(a.fromEv))
+			case i >= len(recs):
+				return a, map[string]string{"check": "event_without_queue_push", "kind": a.fromEv[i].kind},
+					fmt.Sprintf("event %d (%s to %s, %s) corresponds to no queue push (%d pushes, %d events)", i, a.fromEv[i].kind, n.Name(a.fromEv[i].to), a.fromEv[i].sig, len(recs), len(a.fromEv))
+			}
+			if sig := c19SigRPC(&recs[i].rpc.RPC, idf); kind[recs[i].ok] != a.fromEv[i].kind || sig != a.fromEv[i].sig {
+				return a, map[string]string{"check": "queue_push_event_mismatch", "outcome": kind[recs[i].ok], "urgent": fmt.Sprint(recs[i].urgent), "event": a.fromEv[i].kind},
+					fmt.Sprintf("push %d: the queue %s (urgent=%v) %s; event %d is %s to %s of %s", i, map[bool]string{true: "accepted", false: "refused"}[recs[i].ok], recs[i].urgent, sig,
+						i, a.fromEv[i].kind, n.Name(a.fromEv[i].to), a.fromEv[i].sig)
+			}
 		}
 	}
 	if len(a.fromEv) != len(fromRaw) {
@@ -526,6 +593,8 @@ func TestVerifC19World(t *testing.T) {
 				return
 			}
 			tee := &c19Tee{closedAt: -1, sinks: []c19Sink{jt, pt}}
+			pushLog := c19StartPushLog()
+			defer pushLog.Stop()
 			r := vNewRig(c)
 			defer r.Close()
 			defer tee.CloseSinks()
@@ -545,6 +614,10 @@ func TestVerifC19World(t *testing.T) {
 				p := vFastParams()
 				p.D, p.Dlo, p.Dhi, p.Dout, p.Dscore, p.Dlazy = 4, 3, 5, 1, 2, 2
 				p.PruneBackoff, p.UnsubscribeBackoff = 3*time.Second, time.Second
+				if c.Chance(0.5) {
+					// nearly every message is "large": IDONTWANT goes to the mesh ahead of it, through the urgent lane of the queues
+					p.IDontWantMessageThreshold = 8
+				}
 				opts = append(opts, WithGossipSubParams(p))
 				if flood {
 					opts = append(opts, WithFloodPublish(true))
@@ -1013,6 +1086,39 @@ func TestVerifC19World(t *testing.T) {
 							}
 						}
 					}
+				case 23:
+					// a mesh member that speaks v1.2 or later reads slowly while somebody else sends a run of large messages:
+					// every one of them makes the node push IDONTWANT through the urgent lane of a queue that is filling up
+					if router != "gossipsub" || !smallQ || !gp.attached || !GossipSubDefaultFeatures(GossipSubFeatureIdontwant, gp.proto) || len(subs[tn]) == 0 {
+						break
+					}
+					var sender *c19Pup
+					for _, q := range pups {
+						if q != gp && q.attached {
+							sender = q
+						}
+					}
+					if sender == nil {
+						break
+					}
+					kind = "idontwant_squeeze"
+					gp.p.Send(nd.ID(), vSubRPC(true, tn))
+					gp.subbed[tn] = true
+					gp.p.Send(nd.ID(), vGraftRPC(tn))
+					vSettle(5 * time.Millisecond)
+					slowOn(gp, true)
+					for j, J := 0, c.Range(3, 8); j < J; j++ {
+						sender.seq++
+						data := fmt.Sprintf("%s-sq-%d-%s", sender.p.name, sender.seq, strings.Repeat("z", 1500))
+						var m *pb.Message
+						if noSign {
+							tt := tn
+							m = &pb.Message{Data: []byte(data), Topic: &tt}
+						} else {
+							m = vSignedMsg(sender.p.key, tn, vSeqno(sender.seq), []byte(data))
+						}
+						sender.p.Send(nd.ID(), vMsgRPC(m))
+					}
 				case 21:
 					if !smallQ {
 						break
@@ -1084,7 +1190,7 @@ func TestVerifC19World(t *testing.T) {
 			for _, gp := range pups {
 				rawPups = append(rawPups, gp.p)
 			}
-			acct, cause, what := c19Wires(n, nd, rawPups, evs)
+			acct, cause, what := c19Wires(n, nd, rawPups, evs, pushLog)
 			if cause != nil {
 				fail(cause, "%s", what)
 				return
@@ -1216,6 +1322,9 @@ func TestVerifC19World(t *testing.T) {
 			c.Count("publish_attempts", nPublishAttempts)
 			c.Count("publish_refused_by_own_policy", nRefused)
 			c.Count("send_drop", len(acct.fromEv))
+			c.Count("queue_pushes_seen_by_hook", acct.pushes)
+			c.Count("urgent_pushes", acct.urgent)
+			c.Count("urgent_pushes_refused", acct.urgentRef)
 			c.Count("drop_events", acct.drops)
 			c.Count("wire_frames", acct.frames)
 			c.Count("live_sends_on_wire", acct.liveSends)
@@ -1235,6 +1344,8 @@ func TestVerifC19Mesh(t *testing.T) {
 	vRun(t, "C19.mesh", vCount(250, 5000), func(c *vCase) {
 		c.Bubble(func() {
 			tee := &c19Tee{closedAt: 0}
+			pushLog := c19StartPushLog()
+			defer pushLog.Stop()
 			params := gsParams(c)
 			scoring := c.Chance(0.6)
 			w := gsNewWorld(c, gsConfig{params: params, scoring: scoring, nPups: c.Range(4, 12), floodSub: 0.15,
@@ -1296,7 +1407,7 @@ func TestVerifC19Mesh(t *testing.T) {
 			for _, gp := range w.pups {
 				rawPups = append(rawPups, gp.p)
 			}
-			acct, cause, what := c19Wires(w.r.n, w.nd, rawPups, evs)
+			acct, cause, what := c19Wires(w.r.n, w.nd, rawPups, evs, pushLog)
 			if cause != nil {
 				cause["router"] = "gossipsub"
 				h := w.hist
